@@ -43,7 +43,19 @@ FOCUS4 = {
     "C05": "'unsubscribing also removes already queued messages that no longer match', topics that are prefixes of one another, empty topics and empty bodies",
     "C09": "'BUS send never blocks', 'when queues are full messages are dropped whole rather than duplicated, reordered or corrupted', several peers",
 }
+FOCUS5 = {
+    "C01": "inproc and socket-fd connections, raw sockets ('the protocol header bytes travel in front of the body and are re-parsed by the receiving protocol, never lost or mixed into another message'), and 'messages that travel over the same connection arrive in the order they were sent'",
+    "C03": "contexts and aio objects ('each message is released exactly once ... by the application after a failed send (the message is still attached to the aio) or after a successful receive'), devices, and pipe close at any moment",
+    "C07": "the SURVEYOR side with several respondents and several contexts: 'responses to earlier surveys or to other contexts' surveys and late responses are discarded', 'receive with no live survey fails with NNG_ESTATE'",
+    "C08": "'between the two peers messages are delivered in send order, each at most once and none lost while the connection stays up, with send blocking rather than discarding when the peer is not reading', buffers and reconnects",
+    "C16": "the WebSocket framing rules ('client frames masked and server frames unmasked, no reserved opcodes or bits, minimal length encodings, control frames at most 125 bytes, no continuation without a start') and the opening handshake in both roles",
+    "C17": "append / insert / trim / chop with lengths around the internal head room and capacity growth, 'fail with NNG_EINVAL and no change when asked to remove more than is present', 'a duplicate is independent of its original'",
+    "C18": "'they never hold more than their configured depth plus the documented in-flight slot, never reorder, duplicate or corrupt queued messages', the protocols' own queues (pair, push, pub, bus, sub) and request / survey ids",
+    "C19": "'a well-formed authority and port', IPv6 literals, userinfo, upper-case schemes and hosts, 'it never crashes or reads out of bounds on any input', 'nng_url_clone yields an equal, independent URL whatever its length'",
+}
 prop, tag = sys.argv[1], sys.argv[2]
+if len(sys.argv) > 3 and sys.argv[3] == "5":
+    FOCUS = FOCUS5
 if len(sys.argv) > 3 and sys.argv[3] == "4":
     FOCUS = FOCUS4
 text = None
